@@ -8,9 +8,19 @@ type tagCycleValue struct {
 type tagCycleNode struct {
 	position *Token
 	args     []IEvaluator
-	idx      int
 	asName   string
 	silent   bool
+}
+
+// next returns the argument the cycle is at and advances the cycle. The position
+// is kept in the execution context (per rendering), not in the compiled node.
+func (node *tagCycleNode) next(ctx *ExecutionContext) IEvaluator {
+	if len(node.args) == 0 {
+		return nil
+	}
+	idx, _ := ctx.getNodeState(node).(int)
+	ctx.setNodeState(node, idx+1)
+	return node.args[idx%len(node.args)]
 }
 
 func (cv *tagCycleValue) String() string {
@@ -18,8 +28,10 @@ func (cv *tagCycleValue) String() string {
 }
 
 func (node *tagCycleNode) Execute(ctx *ExecutionContext, writer TemplateWriter) *Error {
-	item := node.args[node.idx%len(node.args)]
-	node.idx++
+	item := node.next(ctx)
+	if item == nil {
+		return ctx.Error("cycle-tag has no arguments.", node.position)
+	}
 
 	val, err := item.Evaluate(ctx)
 	if err != nil {
@@ -31,8 +43,10 @@ func (node *tagCycleNode) Execute(ctx *ExecutionContext, writer TemplateWriter) 
 		// {% cycle cycleitem %}
 
 		// Update the cycle value with next value
-		item := t.node.args[t.node.idx%len(t.node.args)]
-		t.node.idx++
+		item := t.node.next(ctx)
+		if item == nil {
+			return ctx.Error("cycle-tag has no arguments.", node.position)
+		}
 
 		val, err := item.Evaluate(ctx)
 		if err != nil {
@@ -96,6 +110,10 @@ func tagCycleParser(doc *Parser, start *Token, arguments *Parser) (INodeTag, *Er
 
 	if arguments.Remaining() > 0 {
 		return nil, arguments.Error("Malformed cycle-tag.", nil)
+	}
+
+	if len(cycleNode.args) == 0 {
+		return nil, arguments.Error("Tag 'cycle' requires at least one argument.", nil)
 	}
 
 	return cycleNode, nil
